@@ -40,6 +40,9 @@ def run_batches(programs, batch=400, harness_timeout=None):
 def finish(pid, tier, programs, t0, rule, bounds, outside, functions, assumptions=(), extra=None, outcome=None,
            harness_timeout=None, batch=400):
     out = outcome or common.Outcome(pid)
+    import os
+    if os.environ.get("VERIF_ONLY"):  # development aid: run only the programs whose signature contains the given text (never set by a registered command)
+        programs = [p for p in programs if os.environ["VERIF_ONLY"] in p.sig]
     stats = run_batches(programs, batch=batch, harness_timeout=harness_timeout)
     counts = kani_runner.triage(pid, programs, out)
     # kernel obligations of the E3 extras that failed without a native replay of their own: they support a violation found by the programs, they are not an alarm alone
